@@ -1,15 +1,57 @@
-(* C05 - the handshake completes and hands trailing bytes back intact.
-   Proved so far (PARTIAL): a fresh handshake of either role that receives the peer's version byte, packet 1, packet 2 and
-   ANY trailing bytes in one call emits exactly its version byte and two 1536-byte packets (packet 2 signed or an exact
-   echo, C11), reports completion and returns exactly the trailing bytes - for every random fill, every peer packet 1
-   (digest-bearing under either scheme, or digest-less = original RTMP handshake) and every HMAC function with 32-byte
-   output.  Independence from the fragmentation of the peer's bytes (1-byte pieces, pieces spanning packet boundaries,
-   trailing data arriving with or after packet 2) is not yet a theorem: it is decided by the correspondence check, where
-   the real Handshake, the model and an independent Python reference are run under random fragmentations. *)
-From RML Require Import Model.Base Model.Sha256 Model.Handshake Gen.Consts Proofs.HandshakeProofs.
+(* C05 - the handshake completes under any fragmentation and hands trailing bytes back intact.
+   Proved on the model of handshake/mod.rs, for every HMAC function with 32-byte output (instantiated in C11 with the
+   Gallina HMAC-SHA256), every random fill, either role, every peer packet 1 (digest-bearing under either scheme, or
+   digest-less = original RTMP handshake) and every peer packet 2:
+   - C05_any_partition: a fresh handshake fed ANY partition of the peer's version byte + packet 1 + packet 2 + trailing
+     bytes (1-byte pieces, pieces spanning packet boundaries, trailing data with or after packet 2) reports no error, its
+     responses add up to exactly its version byte and two 1536-byte packets (C05_own_p1_shape, C11), it reports completion
+     exactly once, and the bytes after the handshake come back exactly once and in order: those of the completing call as
+     `remaining`, the later pieces never consumed;
+   - C05_completion_not_early: when completion is reported, the pieces consumed are the peer's 3073 bytes followed by
+     exactly the returned remaining bytes;
+   - C05_any_partition_after_generate: the same for the side that starts by calling generate_outbound_p0_and_p1.
+   Each side's behaviour depends only on its own input stream and call partition, so every interleaving of the two
+   directions and either side starting first are covered by quantifying over the peer's packets.
+   Proof: every step looks only at a prefix of the buffer (step_ext), the stage rank bounds the loop, a call on a ++ b is the
+   call on a followed by the call on b (call_split), induction over the pieces. *)
+From RML Require Import Model.Base Model.Sha256 Model.Handshake Gen.Consts Proofs.HandshakeProofs Proofs.HandshakeFrag.
 Local Open Scope N_scope.
 
-Theorem C05_whole_stream_partial : forall hmac, (forall k m, length (hmac k m) = 32%nat) -> forall r rand p1 p2 trailing,
+Theorem C05_any_partition : forall hmac, (forall k m, length (hmac k m) = 32%nat) -> forall r rand p1 p2 trailing pieces,
+  length p1 = 1536%nat -> length p2 = 1536%nat ->
+  concat pieces = HS_VERSION_BYTE :: p1 ++ p2 ++ trailing ->
+  let own := gen_p0p1 hmac (hs_new r rand) in
+  exists remaining unfed,
+    snd (hs_feed hmac (hs_new r rand) pieces []) = FCompleted (fst own ++ own_p2 hmac r (h_rand (snd own)) p1) remaining unfed /\
+    remaining ++ concat unfed = trailing.
+Proof. exact fresh_any_partition. Qed.
+
+Theorem C05_completion_not_early : forall hmac, (forall k m, length (hmac k m) = 32%nat) -> forall r rand p1 p2 trailing pieces resp remaining unfed,
+  length p1 = 1536%nat -> length p2 = 1536%nat ->
+  concat pieces = HS_VERSION_BYTE :: p1 ++ p2 ++ trailing ->
+  snd (hs_feed hmac (hs_new r rand) pieces []) = FCompleted resp remaining unfed ->
+  exists fed, pieces = fed ++ unfed /\ concat fed = HS_VERSION_BYTE :: p1 ++ p2 ++ remaining /\ (3073 <= length (concat fed))%nat.
+Proof. exact fresh_completion_not_early. Qed.
+
+Theorem C05_any_partition_after_generate : forall hmac, (forall k m, length (hmac k m) = 32%nat) -> forall r rand p1 p2 trailing pieces,
+  length p1 = 1536%nat -> length p2 = 1536%nat ->
+  concat pieces = HS_VERSION_BYTE :: p1 ++ p2 ++ trailing ->
+  let own := gen_p0p1 hmac (hs_new r rand) in
+  exists remaining unfed,
+    snd (hs_feed hmac (snd own) pieces []) = FCompleted (own_p2 hmac r (h_rand (snd own)) p1) remaining unfed /\ remaining ++ concat unfed = trailing.
+Proof. exact after_gen_any_partition. Qed.
+
+(* a call on a ++ b is the call on a followed (unless it ended the handshake) by the call on b - from every state *)
+Theorem C05_call_split : forall hmac, (forall k m, length (hmac k m) = 32%nat) -> forall h a b,
+  match process_bytes hmac h a with
+  | (h1, HInProgress ra) =>
+      process_bytes hmac h (a ++ b) = (fst (process_bytes hmac h1 b), with_prefix ra (snd (process_bytes hmac h1 b)))
+  | (h1, HCompleted ra rem) => process_bytes hmac h (a ++ b) = (h1, HCompleted ra (rem ++ b))
+  | (h1, HError e) => process_bytes hmac h (a ++ b) = (hext h1 b, HError e)
+  end.
+Proof. exact call_split. Qed.
+
+Theorem C05_whole_stream : forall hmac, (forall k m, length (hmac k m) = 32%nat) -> forall r rand p1 p2 trailing,
   length p1 = 1536%nat -> length p2 = 1536%nat ->
   let own := gen_p0p1 hmac (hs_new r rand) in
   snd (process_bytes hmac (hs_new r rand) (HS_VERSION_BYTE :: p1 ++ p2 ++ trailing)) =
@@ -25,5 +67,9 @@ Theorem C05_own_p1_shape : forall hmac, (forall k m, length (hmac k m) = 32%nat)
   own_offset r p1 = own_offset r (pre_p1 rand).
 Proof. exact p1_digest. Qed.
 
-Print Assumptions C05_whole_stream_partial.
+Print Assumptions C05_any_partition.
+Print Assumptions C05_completion_not_early.
+Print Assumptions C05_any_partition_after_generate.
+Print Assumptions C05_call_split.
+Print Assumptions C05_whole_stream.
 Print Assumptions C05_own_p1_shape.
